@@ -15,7 +15,7 @@
      NEW  integer arrays: the default fill NaN raises                  C16_int_array_nan_fill_refuted *)
 From Coq Require Import ZArith List Bool String Ascii.
 Import ListNotations.
-Require Import PyBase Funcs FuncsFacts FuncsExamples FuncsFacts2 FuncsExamples2 FuncsConv FuncsConvFacts EvalIdx EvalIdxFacts EvalIdxExamples EvalIdxWhole EvalIdxWholeExamples EvalIdxMixed EvalIdxLocate EvalIdxLocateExamples EvalIdxProgram EvalIdxProgramExamples EvalIdxProgram2 EvalIdxProgram3 EvalIdxLocateSpans EvalIdxLocateRange EvalIdxInt EvalIdxGuards EvalIdxNested.
+Require Import PyBase Funcs FuncsFacts FuncsExamples FuncsFacts2 FuncsExamples2 FuncsConv FuncsConvFacts EvalIdx EvalIdxFacts EvalIdxExamples EvalIdxWhole EvalIdxWholeExamples EvalIdxMixed EvalIdxLocate EvalIdxLocateExamples EvalIdxProgram EvalIdxProgramExamples EvalIdxProgram2 EvalIdxProgram3 EvalIdxLocateSpans EvalIdxLocateRange EvalIdxInt EvalIdxGuards EvalIdxNested EvalIdxHistory.
 Require Fsic.Locate.Locate Fsic.Locate.LocateFacts.
 Open Scope string_scope.
 Open Scope Z_scope.
@@ -723,6 +723,17 @@ Theorem C16_undefined_name_leak_refuted :
     snd (ns_case tbl outer vars None None name) = EVal ("G:" ++ name).
 Proof. exact undefined_name_leak_refuted. Qed.
 
+(* ====================================================================== histories: eval() has no memory *)
+(* ANY sequence of eval() calls in one process (builtins=None) — on any containers (any span, any variables), with any caller
+   locals, any expressions, failing or not: every call returns what it would return as the FIRST call, and the package-level
+   helper table is the same at the end.  (A name bound in an earlier call — another container's variable, a caller local, a
+   variable called log — is therefore undefined again afterwards.) *)
+Theorem C16_eval_has_no_memory (V : Type) (pyeval : string -> ns V -> pyres V) (cs : list (call V)) (dh : dheap V) (tbl : nat) :
+  (tbl < List.length dh)%nat ->
+  snd (run_calls V pyeval dh tbl cs) = map (fun c => snd (do_call V pyeval dh tbl c)) cs /\
+  dict_at V (fst (run_calls V pyeval dh tbl cs)) tbl = dict_at V dh tbl.
+Proof. exact (eval_has_no_memory V pyeval cs dh tbl). Qed.
+
 (* ====================================================================== the guards of the kept findings, decidable *)
 (* label_carried a = a has no backtick, colon, closing bracket or newline (computable on any label): such a label, when it
    resolves, is replaced by its location anywhere in an expression *)
@@ -1008,3 +1019,4 @@ Print Assumptions C16_nested_label_KeyError.
 Print Assumptions C16_label_slice_across_lines_unchanged.
 Print Assumptions C16_eval_positional_brackets_untouched.
 Print Assumptions C16_eval_text_is_rewrite.
+Print Assumptions C16_eval_has_no_memory.
